@@ -296,6 +296,9 @@ def eval_case(kind, data):
         else:
             grid = [0.0] + [ref.ppf(q) for q in (0.001, 0.01, 0.1, 0.25, 0.4, 0.5, 0.6, 0.75, 0.9, 0.99, 0.9999)]
         grid = sorted(set(round(float(g), 6) for g in grid))
+        if fam in ("flory_schulz", "schulz_zimm", "poisson"):
+            # discrete laws: ends that are not integers (the interval holds the point masses between the ends), also far out
+            grid = sorted(set(grid + [g + 0.5 for g in grid] + [g + 0.044 for g in grid[-3:]]))
         if fam in ("gauss", "uniform", "log_normal"):
             # continuous laws: also ends with different fractional parts inside one integer bin and in neighbouring bins
             import math as _m
